@@ -133,6 +133,22 @@ pub fn handle(op: &str, args: &[&str], text: &str) -> String {
             }
             outs.join(" # ")
         },
+        ("sigcompat", [a, b]) => {
+            // tape built by step sequence `a` against the signature of the tape built by `b`
+            let build = |ops: &str| {
+                let mut tape = BasicTape::init(0);
+                let cs: Vec<char> = ops.chars().collect();
+                for ch in cs.chunks(3) {
+                    if ch.len() < 3 {
+                        break;
+                    }
+                    tape.step(ch[0] == 'R', (ch[1] as u64) - 48, ch[2] == 's');
+                }
+                tape
+            };
+            let (ta, tb) = (build(a), build(b));
+            format!("{}", ta.sig_compatible(&tb.signature()))
+        },
         ("tapeopsh", [ops]) => {
             let mut tape = BasicTape::init(0);
             let cs: Vec<char> = ops.chars().collect();
